@@ -141,3 +141,240 @@ fn c14_bitfield_unchoke_rule() {
     kani::cover!(!with_am_unchoked && was_choked, "slots exhausted path");
     std::mem::forget(p);
 }
+
+// ---------------------------------------------------------------------------------------------
+// C12: reservation bookkeeping, one manager step from an arbitrary consistent state.
+
+const NP: usize = 3; // pieces
+
+fn fetchers(peers: &[Peer; 2], connected: &[bool; 2], i: usize) -> usize {
+    let mut c = 0;
+    let mut k = 0;
+    while k < 2 {
+        if connected[k] && peers[k].piece_index == Some(i) && !peers[k].choked {
+            c += 1;
+        }
+        k += 1;
+    }
+    c
+}
+
+/// The representation invariant the step is checked against (and must re-establish):
+/// a piece is marked `Reserved(c)` only with 1 <= c <= number of connected, non-choking peers
+/// that were asked for it ("no over-count").  It implies the property's clause "marked as
+/// being fetched only while at least one connected peer that is not choking us has been asked
+/// for it" and is preserved by every legal decrement / increment.
+fn reservations_consistent(status: &Vec<Status>, peers: &[Peer; 2], connected: &[bool; 2]) -> bool {
+    let mut ok = true;
+    let mut i = 0;
+    while i < NP {
+        if let Status::Reserved(c) = status[i] {
+            if c < 1 || c > fetchers(peers, connected, i) {
+                ok = false;
+            }
+        }
+        i += 1;
+    }
+    ok
+}
+
+/// Any answer the piece chooser may give for this peer (C13's contract): nothing, or a piece
+/// the peer advertises and the client lacks.
+fn any_choice(p: &Peer, status: &Vec<Status>) -> Option<usize> {
+    if kani::any() {
+        let i: usize = kani::any();
+        kani::assume(i < NP);
+        kani::assume(p.pieces[i] && status[i] != Status::Have);
+        Some(i)
+    } else {
+        None
+    }
+}
+
+fn release(status: &mut Vec<Status>, i: usize) {
+    // src/session.rs handle_piece_cancel, transcribed (6 lines)
+    status[i] = match status[i] {
+        Status::Reserved(c) => match c >= 2 {
+            true => Status::Reserved(c - 1),
+            false => Status::Missing,
+        },
+        Status::Missing => Status::Missing,
+        Status::Have => Status::Have,
+    }
+}
+
+fn manager_step(event: u8) {
+    let m = mk_simple(NP, 4, 12);
+    let mut status = any_statuses(NP);
+    let mut peers = [any_peer(NP), any_peer(NP)];
+    let mut connected = [true, kani::any()];
+    kani::assume(reservations_consistent(&status, &peers, &connected));
+    let before = status.clone();
+    let mut asked: Option<usize> = None; // piece the connection task is told to request
+
+    match event {
+        0 => peers[0].handle_choke(&mut status),
+        1 => {
+            let chosen = any_choice(&peers[0], &status);
+            match peers[0].handle_unchoke(chosen, &mut status, &m) {
+                UnchokeCmd::SendInterestedAndRequest(r) | UnchokeCmd::SendRequest(r) => asked = Some(r.piece_index),
+                _ => {}
+            }
+        }
+        2 => {
+            let i: usize = kani::any();
+            kani::assume(i < NP); // PeerHandler::handle_have validates the index first (c12_have_validate_spec)
+            match peers[0].handle_have(i, &mut status, &m) {
+                HaveCmd::SendInterestedAndRequest(r) => asked = Some(r.piece_index),
+                _ => {}
+            }
+        }
+        3 | 4 => {
+            // PieceDone / PieceCancel from a connection that was assigned a piece
+            // (src/session.rs handle_piece_done / handle_piece_cancel)
+            let i = match peers[0].piece_index {
+                Some(i) => i,
+                None => {
+                    kani::assume(false);
+                    0
+                }
+            };
+            if event == 3 {
+                status[i] = Status::Have;
+            } else {
+                release(&mut status, i);
+            }
+            let chosen = any_choice(&peers[0], &status);
+            match peers[0].handle_piece(chosen, &mut status, &m) {
+                PieceCmd::SendRequest(r) => asked = Some(r.piece_index),
+                _ => {}
+            }
+        }
+        5 => {
+            // KillReq: src/session.rs kill_peer
+            if let Some(i) = peers[0].piece_index {
+                if status[i] != Status::Have {
+                    status[i] = Status::Missing;
+                }
+            }
+            connected[0] = false;
+        }
+        6 => peers[0].handle_interested(),
+        7 => {
+            let chosen = any_choice(&peers[0], &status);
+            let _ = peers[0].handle_not_interested(chosen);
+        }
+        _ => {
+            let chosen = any_choice(&peers[0], &status);
+            let _ = peers[0].handle_bitfield(chosen, kani::any());
+        }
+    }
+
+    let mut i = 0;
+    while i < NP {
+        if before[i] == Status::Have {
+            assert!(status[i] == Status::Have, "a piece once owned stays owned");
+        }
+        if status[i] == Status::Have && before[i] != Status::Have {
+            assert!(event == 3, "ownership is created only by a finished piece");
+        }
+        i += 1;
+    }
+    assert!(
+        reservations_consistent(&status, &peers, &connected),
+        "a piece stays marked as being fetched although no connected, non-choking peer is asked for it (stale reservation)"
+    );
+    if let Some(i) = asked {
+        assert!(i < NP && peers[0].pieces[i], "a peer is only asked for a piece it advertised");
+        assert!(before[i] != Status::Have || event == 3, "and that the client lacks");
+        assert!(status[i] != Status::Have, "a requested piece is one the client still lacks");
+        assert!(!peers[0].choked, "requests go only to a peer that is not choking us");
+        assert!(peers[0].piece_index == Some(i), "the manager records what it asked for");
+        kani::cover!(true, "a request is issued");
+    }
+    if event >= 6 {
+        let mut i = 0;
+        while i < NP {
+            assert!(status[i] == before[i], "interest/bitfield events never touch the reservations");
+            i += 1;
+        }
+    }
+    kani::cover!(matches!(status[0], Status::Reserved(2)), "a piece fetched from two peers");
+    std::mem::forget(peers);
+}
+
+// @prop C12
+// @fn Peer::handle_choke
+// @bound 3 pieces, 2 peers (the acting one arbitrary, a bystander arbitrary and possibly disconnected), every status vector with counts 1..=3, pre-state satisfying the no-over-count invariant
+// @outside more than 2 peers / 3 pieces; the PeerHandler side of the protocol
+// @assume pre-state: Reserved(c) => 1 <= c <= number of connected non-choking peers assigned that piece (the invariant every step is shown to re-establish)
+// @desc a Choke from any state keeps owned pieces owned and leaves no piece reserved without a connected, non-choking peer that was asked for it (repeated chokes included)
+#[kani::proof]
+#[kani::unwind(6)]
+fn c12_step_choke() {
+    manager_step(0);
+}
+
+// @prop C12
+// @fn Peer::handle_unchoke, req_data
+// @bound as c12_step_choke; the chooser's answer is any piece the peer advertises and the client lacks, or none
+// @assume the piece chooser obeys C13's contract (checked separately)
+// @desc an Unchoke (also a repeated one, or one while a piece is already assigned) re-assigns the peer without leaving the previously assigned piece reserved by nobody; the request names an advertised, lacked piece
+#[kani::proof]
+#[kani::unwind(6)]
+fn c12_step_unchoke() {
+    manager_step(1);
+}
+
+// @prop C12
+// @fn Peer::handle_have, req_data
+// @bound as c12_step_choke; any announced index < pieces_num
+// @desc a Have from any state reserves only for an unchoked idle peer and never over-counts
+#[kani::proof]
+#[kani::unwind(6)]
+fn c12_step_have() {
+    manager_step(2);
+}
+
+// @prop C12 C01
+// @fn Peer::handle_piece, Session::handle_piece_done (status fragment transcribed)
+// @bound as c12_step_choke; the finishing peer has an assigned piece
+// @assume the 2-line status update of Session::handle_piece_done is transcribed in the harness (the async method itself needs the piece chooser: HashMap + shuffle)
+// @desc a finished piece becomes owned and the follow-up assignment (also while the peer chokes us) leaves no stale reservation
+#[kani::proof]
+#[kani::unwind(6)]
+fn c12_step_piece_done() {
+    manager_step(3);
+}
+
+// @prop C12
+// @fn Peer::handle_piece, Session::handle_piece_cancel (status fragment transcribed)
+// @bound as c12_step_choke; the cancelling peer has an assigned piece
+// @desc a cancelled piece is released and the follow-up assignment leaves no stale reservation
+#[kani::proof]
+#[kani::unwind(6)]
+fn c12_step_piece_cancel() {
+    manager_step(4);
+}
+
+// @prop C12 C20
+// @fn Session::kill_peer (status fragment transcribed)
+// @bound as c12_step_choke
+// @desc a disconnect resets the peer's non-owned piece to Missing and leaves no reservation pointing at the vanished peer
+#[kani::proof]
+#[kani::unwind(6)]
+fn c12_step_disconnect() {
+    manager_step(5);
+}
+
+// @prop C12
+// @fn Peer::handle_interested, Peer::handle_not_interested, Peer::handle_bitfield
+// @bound as c12_step_choke
+// @desc interest and bitfield events never change piece statuses
+#[kani::proof]
+#[kani::unwind(6)]
+fn c12_step_interest_bitfield() {
+    let e: u8 = kani::any();
+    kani::assume(e >= 6 && e <= 8);
+    manager_step(e);
+}
